@@ -166,3 +166,67 @@ Fixpoint run (e : env) (b : bank) (ts : list etx) : bank * list outcome :=
   | [] => (b, [])
   | t :: r => let '(b1, o) := deliver e b t in let '(b2, os) := run e b1 r in (b2, o :: os)
   end.
+
+(* ------------------------------------------------------------------------------------------
+   One Cosmos tx carrying several MsgEthereumTx, each with its own signer.  The decorators loop
+   over the messages one after the other: AnteDecVerifyEthAcc checks every message's cost against
+   the balance BEFORE any fee of this tx is taken; AnteDecEthGasConsume then takes each message's
+   prepayment from that message's own sender; the gas limits are summed against the block limit.
+   The msg server runs the messages in order on one cache (any error discards all of them) and
+   refunds each message's leftover to its own sender. *)
+
+Definition bmsg : Type := nat * etx.       (* signer account, message *)
+
+Definition env_for (e : env) (s : nat) : env :=
+  {| e_signer := s; e_collector := e_collector e; e_universe := e_universe e;
+     e_base_fee := e_base_fee e; e_block_gas := e_block_gas e |}.
+
+Definition msg_checks (b : bank) (m : bmsg) : bool :=
+  let '(s, t) := m in
+  (0 <? t_gas t) && (0 <=? t_value t) && (0 <=? cap_price (t_fee t)) &&
+  (t_gas t * cap_price (t_fee t) + t_value t <=? to_wei (bal b s)).
+
+Fixpoint prepay_all (e : env) (b : bank) (ms : list bmsg) : option bank :=
+  match ms with
+  | [] => Some b
+  | (s, t) :: r =>
+      match send b s (e_collector e) (prepay (t_gas t) (eff_price (t_fee t) (e_base_fee e))) with
+      | None => None
+      | Some b1 => prepay_all e b1 r
+      end
+  end.
+
+Fixpoint total_gas (ms : list bmsg) : Z :=
+  match ms with [] => 0 | (_, t) :: r => t_gas t + total_gas r end.
+
+Definition ante_bundle (e : env) (b : bank) (ms : list bmsg) : option bank :=
+  match ms with
+  | [] => None
+  | _ => if forallb (msg_checks b) ms && (total_gas ms <=? e_block_gas e) then prepay_all e b ms else None
+  end.
+
+Fixpoint run_msgs (e : env) (b : bank) (ms : list bmsg) : option (bank * list outcome) :=
+  match ms with
+  | [] => Some (b, [])
+  | (s, t) :: r =>
+      match run_msg (env_for e s) b t with
+      | None => None
+      | Some (b1, o) =>
+          match run_msgs e b1 r with
+          | None => None
+          | Some (b2, os) => Some (b2, o :: os)
+          end
+      end
+  end.
+
+Inductive boutcome := BRejected | BMsgErr | BDone (os : list outcome).
+
+Definition deliver_bundle (e : env) (b : bank) (ms : list bmsg) : bank * boutcome :=
+  match ante_bundle e b ms with
+  | None => (b, BRejected)
+  | Some b1 =>
+      match run_msgs e b1 ms with
+      | None => (b1, BMsgErr)
+      | Some (b2, os) => (b2, BDone os)
+      end
+  end.
